@@ -237,15 +237,19 @@ func (g *gen) sendVote(m *voteMsg) (res tmconsensus.HandleVoteProofsResult, ok b
 }
 
 func (g *gen) doSendVote(m *voteMsg, judge bool) (res tmconsensus.HandleVoteProofsResult, ok bool) {
+	return g.doSendVoteHeld(m, judge, nil)
+}
+
+func (g *gen) doSendVoteHeld(m *voteMsg, judge bool, hold *voteHold) (res tmconsensus.HandleVoteProofsResult, ok bool) {
 	judgeInvalid := judge && g.mo != nil && !m.anyValid() && len(m.proofs) > 0
 	var before string
 	if judgeInvalid {
 		before, judgeInvalid = g.mo.stateDigest(m.h, m.r)
 	}
 	if m.kind == kindPrevote {
-		res, ok = g.n.deliverPrevotes(tmconsensus.PrevoteSparseProof{Height: m.h, Round: m.r, PubKeyHash: m.pubKeyHash, Proofs: m.proofs})
+		res, ok = g.n.deliverPrevotesHeld(tmconsensus.PrevoteSparseProof{Height: m.h, Round: m.r, PubKeyHash: m.pubKeyHash, Proofs: m.proofs}, hold)
 	} else {
-		res, ok = g.n.deliverPrecommits(tmconsensus.PrecommitSparseProof{Height: m.h, Round: m.r, PubKeyHash: m.pubKeyHash, Proofs: m.proofs})
+		res, ok = g.n.deliverPrecommitsHeld(tmconsensus.PrecommitSparseProof{Height: m.h, Round: m.r, PubKeyHash: m.pubKeyHash, Proofs: m.proofs}, hold)
 	}
 	g.cs.logf("%s -> %s ok=%v", m.String(), res, ok)
 	g.cs.count("msg." + m.kind)
@@ -1148,6 +1152,75 @@ func forgeListsMode(vs tmconsensus.ValidatorSet, g *gen, mode int) tmconsensus.V
 	return out
 }
 
+// overlappingVotes is the two-callers schedule: message M1 carries valid votes for two
+// targets {X: a, T: b}; while its call is parked between the mirror's merge and the kernel
+// request (hook point mirror.vote.beforeAdd), message M2 = {T: b} is delivered completely;
+// then M1 continues: its part for T is now stale, its part for X is new. Whatever the kernel
+// makes of that, the views and what the consumers are told must agree afterwards.
+func (g *gen) overlappingVotes(vh uint64, vr uint32) {
+	if g.recording || g.tape != nil {
+		return
+	}
+	set := g.w.set(vh)
+	if set.n() < 2 {
+		return
+	}
+	kind := kindPrevote
+	if g.pick(3) == 0 {
+		kind = kindPrecommit
+	}
+	r := vr
+	if g.pick(4) == 0 {
+		r = vr + 1
+	}
+	// two different validators that together stay below one third (so that nothing shifts
+	// between the two deliveries); else any two
+	a, b := g.pick(set.n()), g.pick(set.n())
+	if m := g.w.minoritySubset(g.rng, vh); len(m) >= 2 {
+		a, b = m[0], m[1]
+	}
+	if a == b {
+		b = (a + 1) % set.n()
+	}
+	x, t := g.randHash(), ""
+	if bl := g.roundBlocks[[2]uint64{vh, uint64(r)}]; len(bl) > 0 {
+		x = bl[g.pick(len(bl))]
+	}
+	if g.pick(3) == 0 {
+		t = g.randHash()
+	}
+	m1 := g.validVote(kind, vh, r, x, []int{a})
+	m1.desc = "overlap-first(held)"
+	m1.proofs[t] = g.w.validSparse(kind, vh, r, t, []int{b})
+	m1.meta[t] = append(m1.meta[t], sigMeta{idx: b, valid: true, mode: "ok"})
+	m2 := g.validVote(kind, vh, r, t, []int{b})
+	m2.desc = "overlap-second"
+	g.w.noteDelivered(voteKey{kind, vh, r, x}, []int{a})
+	g.w.noteDelivered(voteKey{kind, vh, r, t}, []int{b})
+
+	hold := newVoteHold()
+	done := make(chan struct{})
+	go func() {
+		defer close(done)
+		g.doSendVoteHeld(m1, false, hold)
+	}()
+	reached := false
+	select {
+	case <-hold.arrived:
+		reached = true
+	case <-done:
+	}
+	if reached {
+		g.cs.count("overlap.first-call-parked-before-add")
+		g.doSendVote(m2, false)
+		close(hold.release)
+		<-done
+	} else {
+		g.cs.count("overlap.first-call-returned-before-the-hook")
+		g.doSendVote(m2, false)
+	}
+}
+
 // ---------------------------------------------------------------------------
 // hostile replays
 
@@ -1221,7 +1294,18 @@ func (g *gen) attackReplay(vh uint64, vr uint32, cr uint32) {
 		if !ok {
 			return
 		}
-		g.sendReplay(ph.Header, g.w.commitProofFor(vh, vr, string(ph.Header.Hash), g.w.subQuorumSubset(g.rng, vh, true), nil), "underpowered")
+		sub := g.w.subQuorumSubset(g.rng, vh, true)
+		desc := "underpowered"
+		if len(sub) >= 2 && g.pick(2) == 0 {
+			// the node already holds a precommit for the block (from a validator outside the
+			// replay's proof), so the replay's signatures are merged into an existing entry
+			// before the replay is refused
+			g.sendPH(ph, "legit")
+			g.sendVote(g.validVote(kindPrecommit, vh, vr, string(ph.Header.Hash), sub[:1]))
+			sub = sub[1:]
+			desc = "underpowered-onto-existing-precommits"
+		}
+		g.sendReplay(ph.Header, g.w.commitProofFor(vh, vr, string(ph.Header.Hash), sub, nil), desc)
 	case 2: // tampered header (hash no longer matches)
 		ph, ok := g.newLegitBlock(vh, vr, cr)
 		if !ok {
@@ -1427,6 +1511,8 @@ func (g *gen) attack() {
 		g.lateForCommitted++
 	}
 	switch x := g.pick(100); {
+	case x < 4:
+		g.overlappingVotes(vh, vr)
 	case x < 40:
 		kind := kindPrevote
 		if g.pick(2) == 0 {
